@@ -575,6 +575,7 @@ func minMaxRules(c *Ctx) {
 				c.Rep.fail(Finding{Rule: "R8", Key: "R8|" + p + "|undecided|" + firstLine(und), Kind: "undecided", Plugin: p, Script: rs.Run.Script, Msg: p + ": residual cannot be tabulated (" + und + ")", Detail: rs.Run.excerpt(30)})
 			}
 			ok = reportIssues(c, rs, "R8", "", issues) && ok
+			ok = reportIssues(c, rs, "R8", "", minMaxFormIssues(rs, rs.Funcs[0])) && ok
 			ok = reportIssues(c, rs, "R5b", "", orderedKindIssues(rs, rs.Funcs[0].Body)) && ok
 			ok = reportIssues(c, rs, "R8", "", compareMagnitudeIssues(rs, rs.Funcs[0].Body)) && ok
 			if s := newSided(rs, rs.Funcs[0]); s != nil {
@@ -648,4 +649,27 @@ func compareMagnitudeIssues(rs *Resid, body ast.Node) []sideIssue {
 		return true
 	})
 	return out
+}
+
+// minMaxFormIssues: deriveMin(a, b) is the two-value form exactly when its two argument types are identical; otherwise it is
+// the list form (list, default). A generator that picks the two-value form because the second argument is merely assignable to
+// the first (an untyped nil default next to a list of pointers) compares the list with the default instead of scanning it.
+func minMaxFormIssues(rs *Resid, fn *ast.FuncDecl) []sideIssue {
+	loops := false
+	ast.Inspect(fn.Body, func(n ast.Node) bool {
+		switch n.(type) {
+		case *ast.RangeStmt, *ast.ForStmt:
+			loops = true
+		}
+		return true
+	})
+	if loops || fn.Type.Params.NumFields() != 2 {
+		return nil
+	}
+	for _, d := range rs.Run.Decisions {
+		if d.Sym == "B:types.Identical(typs[0],typs[1])" && d.Choice == 0 {
+			return nil
+		}
+	}
+	return []sideIssue{{fn, "the two-value form (no scan of a list) is generated although this path did not establish that the two argument types are identical: for deriveMin(list, nil) with a list of pointers, slices or maps the untyped nil default is assignable to the list type, and the function compares the list with the default instead of returning the smallest element", "two-value-without-identity", ""}}
 }
